@@ -50,6 +50,15 @@ def run(ctx, report):
             if es is None:
                 report.ob("PARSE", "parse/exactly-32", True, "parse succeeds via <[u8;32]>::try_from(slice): exactly 32 bytes", cfg, node.sp)
                 continue
+            # Ok(NodeId { raw }) with raw the success payload of <[u8;32]>::try_from(input): exactly 32 bytes, copied (std contract)
+            v0 = strip(es.a[1]["0"])
+            if v0.k == "agg" and v0.a[0].endswith("NodeId::NodeId"):
+                src = ok_payload(strip(v0.a[1]["raw"]))
+                sc = strip(src) if src is not None else None
+                if sc is not None and sc.k == "call" and sc.a[0].name in ("try_from", "try_into") and "[u8; 32]" in sc.a[0].full and strip(sc.a[1][0]).k == "param" and strip(sc.a[1][0]).a[0] == 1:
+                    report.ob("PARSE", "parse/exactly-32", True, "parse succeeds via <[u8;32]>::try_from(slice): exactly 32 bytes", cfg, node.sp)
+                    report.ob("PARSE", "parse/copies-input", True, "the parsed id is the array <[u8;32]>::try_from copied from the input", cfg, node.sp)
+                    continue
             adm = [(0, guards.INF)]
             for d, cond, allowed, alll in an.constraints_at(bb):
                 r = guards.constraint_set(cond, allowed, const_int, strip)
@@ -124,7 +133,7 @@ def run(ctx, report):
     else:
         report.analysed_fns.add(f.path)
         an, rets = one_ret(ctx, f)
-        pieces = fmtstr.write_fmt_pieces(rets[0][2]) if len(rets) == 1 else None
+        pieces = fmtstr.flatten_pieces(an, fmtstr.write_fmt_pieces(rets[0][2])) if len(rets) == 1 else None
         ok = pieces is not None and len(pieces) == 2 and pieces[0] == ("lit", b"0x") and pieces[1][0] == "arg" and pieces[1][1] == "display" and not pieces[1][4] and P.match(pieces[1][2], HEXRAW) is not None
         report.check("TEXT", "Debug", ok, "Debug prints \"0x\" followed by hex of all 32 bytes", "Debug is not \"0x\" + hex::encode(raw): %s" % describe(pieces), fn=f.path, sp=f.span, config=cfg)
     f = facts.fn("<node_id::NodeId as std::fmt::Display>::fmt")
@@ -133,7 +142,7 @@ def run(ctx, report):
     else:
         report.analysed_fns.add(f.path)
         an, rets = one_ret(ctx, f)
-        pieces = fmtstr.write_fmt_pieces(rets[0][2]) if len(rets) == 1 else None
+        pieces = fmtstr.flatten_pieces(an, fmtstr.write_fmt_pieces(rets[0][2])) if len(rets) == 1 else None
         ok = False
         why = describe(pieces)
         if pieces is not None:
